@@ -24,6 +24,22 @@ CLAIMS = {
              'correspondence (pull counts equal on every case). Partial: bound proved outside the known-finding region',
         technique='Lean 4 proof (invariant over access traces) + model/implementation correspondence',
         ref='DESIGN.md §5 C12'),
+    'C09': dict(
+        text='Lean 4 theorems about the conditional of the interpreter model (condLoop = the \'i\' block of render_blocks_ '
+             'inside its cache frame; dtml-if/elif/else, dtml-unless, dtml-call compile to it), for ALL programs, namespaces, '
+             'fault plans and fuel: condLoop_cons (step rule), true_selects_body, later_conditions_not_evaluated, '
+             'false_skips_body, error_in_condition_propagates, runFalse_skips / first_true_branch (the k-th body after k-1 '
+             'false conditions, each evaluated once), none_true_renders_else, cache_hit / named_condition_cached / '
+             'repeated_condition_no_event (value stored once, reused without a call or event), undefined_is_false, '
+             'if_renders_iff_true / unless_renders_iff_false / unless_is_not_if, call_once_no_output. Correspondence: results '
+             'and call traces of generated conditionals (exhaustive over 7 condition kinds for chains <= 3/4, random chains '
+             '<= 5 with repeated names and nested re-references); oracle: output and ordered call log predicted from the '
+             'documented rule',
+        note='Trusted: Lean kernel; interpreter model validated (not verified) against the real classes by correspondence. '
+             'Statements carry explicit fuel offsets (the model is fuel-indexed)',
+        technique='Lean 4 proof (step rule + induction over the condition chain, reuse of the C08 invariant) + '
+                  'model/implementation correspondence + call-log oracle',
+        ref='DESIGN.md §5 C09'),
     'C08': dict(
         text='Lean 4 theorems about the interpreter model (Render.lean: namespace stack, lookups with auto-call, '
              'expressions, every block tag, sub-template calls, dtml-return, exceptions, fault plans as part of the '
